@@ -78,8 +78,11 @@ def gen_result(r, i, passed_out=None):
     else:
         st = r.choice([(False, False), (True, False), (True, True)])
         k = dict(bid=r.randint(0, 34), x=st[0], xx=st[1], vul=r.randint(0, 3), decl=r.randint(0, 3))
-    return dict(event=word(r), site=word(r), date=[r.randint(1990, 2030), r.randint(1, 12), r.randint(1, 28)], board_num=r.randint(1, 999),
-                players=[word(r) for _ in range(4)], dealer=r.randint(0, 3), deal=pc.deal_of(r) if r.random() < 0.8 else pc.skewed_deal(r),
+    def name():        # blank runs, leading and trailing blanks are part of a name (space is in the stated alphabet)
+        k = r.random()
+        return word(r) if k < 0.6 else word(r, 3) + ' ' * r.randint(2, 4) + word(r, 4) if k < 0.8 else ' ' * r.randint(1, 2) + word(r, 5) if k < 0.9 else word(r, 5) + ' ' * r.randint(1, 2)
+    return dict(event=name(), site=name(), date=[r.randint(1990, 2030), r.randint(1, 12), r.randint(1, 28)], board_num=r.randint(1, 999),
+                players=[name() for _ in range(4)], dealer=r.randint(0, 3), deal=pc.deal_of(r) if r.random() < 0.8 else pc.skewed_deal(r),
                 scoring=r.choice(jc.SCORINGS), contract=k, taken=None if po else r.randint(0, 13))
 
 
